@@ -59,6 +59,8 @@ type Dialogue struct {
 	// Then: a second dialogue opened (on a fresh driver object) in the same process right after this
 	// one; both are judged.
 	Then *Dialogue `json:"then,omitempty"`
+	// CloseErr: the transport's Close does close it but returns an error.
+	CloseErr bool `json:"close_err,omitempty"`
 	// Loss: the connection is lost during the login exchange: "eof" | "err" | "err-timedout" (reads
 	// deliver exactly LossAt bytes, then fail) | "write" (the LossAt-th write, 1-based, and later fail).
 	Loss   string `json:"loss,omitempty"`
@@ -482,13 +484,18 @@ func promptFamily(kind string, d *Dialogue) []string {
 	var base []string
 	switch kind {
 	case KUser:
-		base = []string{"Username:", "username:", "login:", "Login:", d.Host + " login:", "Enter username:", "Router Login:", "Username:"}
+		// the default pattern accepts "username:" anywhere in a line with anything after it, or a line
+		// ending in "login:" plus at most one white-space character
+		base = []string{"Username:", "username:", "login:", "Login:", d.Host + " login:", "Enter username:", "Router Login:", "Username:",
+			"Username: Kerberos: No default realm defined for Kerberos", "Username:  ", "Username: \t", "Enter Username: (case sensitive)",
+			"console username:>", "*** " + d.Host + " username: ***"}
 	case KPassword:
 		base = []string{"Password:", "password:", "Password:", d.User + "@" + d.Host + "'s password:", "(" + d.User + "@" + d.Host + ") Password:",
-			"Enter password:", d.User + "@10.0.0.1's Password:", "Login password:"}
+			"Enter password:", d.User + "@10.0.0.1's Password:", "Login password:", "(current) UNIX password:", "[sudo] x@y - password:"}
 	case KPassphrase:
 		base = []string{"Enter passphrase for key '/home/" + d.User + "/.ssh/id_rsa':", "Enter passphrase for key '/tmp/k':",
-			"Enter passphrase for key 'id_ed25519':", "Enter passphrase for key '/etc/keys/" + d.Host + ".pem':"}
+			"Enter passphrase for key 'id_ed25519':", "Enter passphrase for key '/etc/keys/" + d.Host + ".pem':",
+			"ssh: Enter passphrase for key '/k' (will not echo):", "Please enter passphrase for key id_rsa now >", "enter passphrase for key"}
 	}
 	return base
 }
@@ -504,8 +511,11 @@ func genPromptText(r *rand.Rand, kind string, d *Dialogue) string {
 		base = []string{"Unlock private key '/home/" + d.User + "/.ssh/id_rsa':", "Unlock private key 'id_ed25519':"}
 	}
 	s := mangleCase(r, base[r.Intn(len(base))])
-	if r.Intn(5) < 3 {
+	switch r.Intn(10) {
+	case 0, 1, 2, 3, 4, 5:
 		s += " "
+	case 6:
+		s += "\t" // the patterns allow one white-space character of any kind
 	}
 	return s
 }
@@ -750,6 +760,7 @@ func GenDialogue(r *rand.Rand, o GenOpts) (Dialogue, GenStats) {
 		d.FirstOp = []string{"getprompt", "sendcommand", "readall", "readall"}[r.Intn(4)]
 	}
 	genTransport(r, &d)
+	d.CloseErr = r.Intn(6) == 0
 	if d.Driver != "netconf" {
 		switch r.Intn(12) {
 		case 0:
@@ -1027,6 +1038,7 @@ func Sweep(r *rand.Rand) []Dialogue {
 				d := base(auth, drv)
 				d.Steps = mk(auth, &d)[pi]
 				applyCredConfig(&d, cfg)
+				d.CloseErr = n%2 == 0
 				Finish(&d)
 				out = append(out, d)
 			}
@@ -1059,7 +1071,7 @@ func Sweep(r *rand.Rand) []Dialogue {
 				continue
 			}
 			for i := range promptFamily(kind, &Dialogue{}) {
-				for _, sp := range []string{"", " "} {
+				for _, sp := range []string{"", " ", "\t"} {
 					drv := drivers[n%3]
 					if auth == "telnet" {
 						drv = drivers[n%2]
@@ -1068,7 +1080,11 @@ func Sweep(r *rand.Rand) []Dialogue {
 					d := base(auth, drv)
 					txt := promptFamily(kind, &d)[i] + sp
 					p := sessionPatterns(&d)
-					if !p.promptTextOK(kind, txt) || !p.tailOK(kind, txt, "") {
+					echo := ""
+					if kind == KUser && d.EchoUser {
+						echo = d.User
+					}
+					if !p.promptTextOK(kind, txt) || !p.tailOK(kind, txt, echo) {
 						continue
 					}
 					// asked twice (one rejection), then admitted
